@@ -434,6 +434,16 @@ def work(case: dict) -> dict:
             else:
                 fp.write_bytes(CONTENT_MAGICS[it["content"]].encode("latin-1") if it.get("content") is not None else b"x\n")
             arg = fp if it.get("pathobj") else str(fp)
+            cwd0 = None
+            if it.get("rel"):
+                # the same file, named relative to the current directory
+                cwd0 = os.getcwd()
+                (d / "inner").mkdir(exist_ok=True)
+                rel = {"bare": it["name"], "dot": "./" + it["name"], "sub": it["name"], "updir": "../" + d.name + "/" + it["name"]}[it["rel"]]
+                os.chdir(d if it["rel"] != "sub" else d.parent)
+                if it["rel"] == "sub":
+                    rel = d.name + "/" + it["name"]
+                arg = Path(rel) if it.get("pathobj") else rel
             del hits[:]
             try:
                 n = len(list(sp.read_file(arg)))
@@ -442,9 +452,12 @@ def work(case: dict) -> dict:
                 res = "N"
             except BaseException as ex:
                 res = "E:" + type(ex).__name__ + (":" + type(ex.__cause__).__name__ if ex.__cause__ is not None else "")
+            finally:
+                if cwd0 is not None:
+                    os.chdir(cwd0)
             h = list(hits)
             del hits[:]
-            s, e = _route_one(str(fp))
+            s, e = _route_one(str(arg))
             for f_ in [fp] + made:
                 try:
                     f_.unlink()
@@ -722,7 +735,8 @@ def _configs(mime_keys: list[str]):
     return cfgs, extra, canary
 
 
-DISPATCH_STEMS = ["report", "my report", "a.b.c", "x.pdf", "ünïcödé 文件", "q?x=1#f", "archive.tar", "UPPER.DOCX", "x.", "~$report", "._report", "#report#", "report~", " lead"]
+DISPATCH_STEMS = ["report", "my report", "a.b.c", "x.pdf", "ünïcödé 文件", "q?x=1#f", "archive.tar", "UPPER.DOCX", "x.", "~$report", "._report", "#report#", "report~", " lead",
+                  "~WRL0003", "~draft", "~", "$HOME", "%TEMP%", "-rf", "..x"]
 # what a symbolic link may point to (the link's own name is what was asked for; the target's name must not matter)
 # leading bytes of real formats: a file's content must never decide which extractor read_file runs (the name does, exactly as for get_extractor)
 CONTENT_MAGICS = {
@@ -764,6 +778,12 @@ def _dispatch_items(run):
             items.append({"name": name, "sub": "", "pathobj": rng.random() < 0.5, "link": tgt, "abs": rng.random() < 0.5, "chain": False})
     for ext in rng.sample(exts, run.n(6, 30)):
         items.append({"name": "f." + ext, "sub": "", "pathobj": False, "dirlink": rng.choice(("real.dir.pdf", "realdir", "real.zip"))})
+    # the path as a caller in that directory would give it: relative (bare name, ./name, sub/name, ../dir/name) instead of absolute; every dispatch
+    # stem (names starting with ~, $, %, - included) x a sample of extensions
+    for stem in DISPATCH_STEMS:
+        for ext in rng.sample(exts, run.n(3, 12)):
+            for rel in ("bare", "dot", "sub", "updir"):
+                items.append({"name": stem + "." + rng.choice((ext, ext.upper())), "sub": "rel dir", "pathobj": rng.random() < 0.5, "rel": rel})
     # content of one format under the name of another: every routed extension x leading bytes of every real format, also for unrouted and missing extensions
     magics = sorted(CONTENT_MAGICS)
     for ext in exts:
@@ -860,7 +880,7 @@ def _first_use_cases(run):
                 members = sorted(members)
                 if len(members) < 2:
                     continue
-                for _ in range(run.n(2, 6)):
+                for _ in range(run.n(6, 12)):
                     pick = rng.sample(members, min(len(members), rng.randint(2, 4)))
                     ps = [n_ for f_ in pick for n_ in names(f_, 8 // len(pick))]
                     cases.append({"k": "firstuse", "id": f"f{len(cases)}", "paths": ps, "fns": pick})
@@ -1253,6 +1273,7 @@ def main(run):
         run.require("mime_config_in_force@" + cfg["name"], run.counters.get("mime_config_in_force@" + cfg["name"], 0), 1)
         run.require("documented_names_resolved@" + cfg["name"], run.counters.get("documented_names_resolved@" + cfg["name"], 0), len(PUBLIC))
         run.require("read_file_calls_on_foreign_content@" + cfg["name"], run.counters.get("read_file_calls_on_foreign_content@" + cfg["name"], 0), run.n(1000, 1000))
+        run.require("read_file_calls_with_relative_paths@" + cfg["name"], run.counters.get("read_file_calls_with_relative_paths@" + cfg["name"], 0), run.n(200, 800))
         run.require("read_file_calls_through_symlinks@" + cfg["name"], run.counters.get("read_file_calls_through_symlinks@" + cfg["name"], 0), run.n(60, 300))
         run.require("read_file_stub_hits@" + cfg["name"], run.counters.get("read_file_stub_hits@" + cfg["name"], 0),
                     int(0.9 * n_routed_d / len(cfgs)))
@@ -1296,7 +1317,9 @@ def _judge_dispatch(run, cfg, res, ditems, inv_doc, ctx):
         for it, ob in zip(chunk, o["d"]):
             name = it["name"]
             cls, ext, hidden, strong, d = _judge_route(run, cfg, name, (ob["sup"], ob["get"]), inv_doc, ctx, where="read_file-path")
-            via = "+symlink" if it.get("link") else ("+linked-directory" if it.get("dirlink") else ("+content-of-another-format" if it.get("content") is not None else ""))
+            if it.get("rel"):
+                run.count("read_file_calls_with_relative_paths@" + cname)
+            via = "+relative-path" if it.get("rel") else "+symlink" if it.get("link") else ("+linked-directory" if it.get("dirlink") else ("+content-of-another-format" if it.get("content") is not None else ""))
             if it.get("content") is not None:
                 run.count("read_file_calls_on_foreign_content@" + cname)
             feat = (f"{cls}-ext" if strong else ("dotfile" if hidden else cls)) + via + "@" + cname
